@@ -721,6 +721,25 @@ def _v_isint(I, a):
     if isinstance(v, (Fraction, int)): return 1 if Fraction(v).denominator == 1 else 0
     if isinstance(v, float): return 1 if v == v and v not in (INF, -INF) and v == math.floor(v) else 0
     raise Unsupported('verif_is_integer of %r' % (v,))
+@ext('verif_logged_value')
+def _v_logged(I, a):
+    # double verif_logged_value(const char *marker, int *found): the number printed right after 'marker' in the most recent log message containing it
+    marker = _name(I, a[0])
+    for msg in reversed(I.ext.get('log', [])):
+        i = msg.find(marker)
+        if i < 0: continue
+        rest = msg[i + len(marker):].lstrip()
+        if rest.startswith('\x1b'):
+            j = rest.find('\x1b', 1); val = I.ext['tokens'][int(rest[1:j])]
+        else:
+            tok = rest.split()[0] if rest.split() else ''
+            try: val = I.mkfloat(float(tok))
+            except ValueError: continue
+        I.store(a[1], 1, 4)
+        if isinstance(val, SV): val = I.conv('sitofp', val, 'f64', 'i64', 'log')
+        return val
+    I.store(a[1], 0, 4)
+    return I.mkfloat(0.0)
 @ext('verif_param')
 def _v_param(I, a):
     nm = _name(I, a[0]); v = I.ext.get('params', {}).get(nm)
